@@ -9,9 +9,9 @@ CONSTANTS
   MCTrunk = {FALSE, TRUE}
   MCExtra = {0, 1, 2}
   MCMulti = {FALSE, TRUE}
-  MCHow = {"cni"}
+  MCHow = {}
   MCEnis = {1, 2}
   BadDesign = ""
-  GenLen = 7
+  GenLen = 4
   GenOn = TRUE
 CHECK_DEADLOCK FALSE
